@@ -9,31 +9,32 @@ variable (ph : Bytes → Option Bytes)
 
 /-- `GetDescriptors` = the live descriptors satisfying every selector, in table order — for every
     image and every tuple of selectors none of which is a zero ID / zero group. -/
-theorem C13_filter (s : Img) (sels : List Sel) (hne : s.h.dfree ≠ s.h.dtotal)
+theorem C13_filter (s : Img) (sels : List Sel) (hne : s.isEmpty = false)
     (hsel : ∀ x ∈ sels, x.noErr = true) :
     getDescriptors ph s sels =
       .ok ((live s.rds).filter (fun d => sels.all (fun x => x.holds ph d))) := by
   unfold getDescriptors
-  simp only [beq_iff_eq, hne, ↓reduceIte]
+  simp only [hne, Bool.false_eq_true, ↓reduceIte]
   exact selectDescs_pure ph sels s.rds _ (fun d _ _ => multiSel_noErr ph sels d hsel)
 
 /-- the same for any selector tuple that behaves as a pure caller predicate `p` on the in-use
     descriptors (covers caller-supplied selector functions) -/
 theorem C13_filter_pred (s : Img) (sels : List Sel) (p : RawDesc → Bool)
-    (hne : s.h.dfree ≠ s.h.dtotal)
+    (hne : s.isEmpty = false)
     (hp : ∀ d ∈ s.rds, d.used = true → multiSel ph sels d = .ok (p d)) :
     getDescriptors ph s sels = .ok ((live s.rds).filter p) := by
   unfold getDescriptors
-  simp only [beq_iff_eq, hne, ↓reduceIte]
+  simp only [hne, Bool.false_eq_true, ↓reduceIte]
   exact selectDescs_pure ph sels s.rds p hp
 
 /-- results are in table order and contain in-use descriptors only -/
 theorem C13_sublist (s : Img) (sels : List Sel) (r : List RawDesc)
     (hsel : ∀ x ∈ sels, x.noErr = true) (h : getDescriptors ph s sels = .ok r) :
     r.Sublist s.rds ∧ ∀ d ∈ r, d.used = true := by
-  by_cases hne : s.h.dfree = s.h.dtotal
-  · simp [getDescriptors, hne] at h
-  · rw [C13_filter ph s sels hne hsel] at h
+  cases hne : s.isEmpty with
+  | true => simp [getDescriptors, hne] at h
+  | false =>
+    rw [C13_filter ph s sels hne hsel] at h
     cases h
     refine ⟨(List.filter_sublist).trans (by unfold live; exact List.filter_sublist), ?_⟩
     intro d hd
@@ -41,7 +42,7 @@ theorem C13_sublist (s : Img) (sels : List Sel) (r : List RawDesc)
     simpa [live] using (List.mem_filter.mp this).2
 
 /-- the single-object form: not found / the unique match / multiple found -/
-theorem C13_single (s : Img) (sels : List Sel) (hne : s.h.dfree ≠ s.h.dtotal)
+theorem C13_single (s : Img) (sels : List Sel) (hne : s.isEmpty = false)
     (hsel : ∀ x ∈ sels, x.noErr = true) :
     let ms := (live s.rds).filter (fun d => sels.all (fun x => x.holds ph d))
     (ms.length = 0 → getDescriptor ph s sels = .error .objectNotFound) ∧
@@ -53,7 +54,7 @@ theorem C13_single (s : Img) (sels : List Sel) (hne : s.h.dfree ≠ s.h.dtotal)
     fun d _ _ => multiSel_noErr ph sels d hsel
   obtain ⟨h0, h1, h2⟩ := findOne_none ph sels _ s.rds 0 hp
   unfold getDescriptor getDescriptorIdx
-  simp only [beq_iff_eq, hne, ↓reduceIte]
+  simp only [hne, Bool.false_eq_true, ↓reduceIte]
   refine ⟨fun h => by rw [h0 h], ?_, fun h => by rw [h2 h]⟩
   intro h
   obtain ⟨k, hk, d, hd, _, _, hms⟩ := h1 h
@@ -62,7 +63,7 @@ theorem C13_single (s : Img) (sels : List Sel) (hne : s.h.dfree ≠ s.h.dtotal)
   simp [List.getD, hd]
 
 /-- an image with no objects is reported as such, by both forms, whatever the selectors -/
-theorem C13_empty (s : Img) (sels : List Sel) (he : s.h.dfree = s.h.dtotal) :
+theorem C13_empty (s : Img) (sels : List Sel) (he : s.isEmpty = true) :
     getDescriptors ph s sels = .error .noObjects ∧ getDescriptor ph s sels = .error .noObjects := by
   simp [getDescriptors, getDescriptor, he]
 
@@ -71,12 +72,12 @@ theorem C13_empty (s : Img) (sels : List Sel) (he : s.h.dfree = s.h.dtotal) :
     full-strength reading "for every selector combination" is false of the code, see
     `D6_witness` below; recorded as known finding D6.) -/
 theorem C13_zero_partial (s : Img) (pre post : List Sel) (z : Sel) (e : Err)
-    (hne : s.h.dfree ≠ s.h.dtotal) (hz : z.errOf = some e)
+    (hne : s.isEmpty = false) (hz : z.errOf = some e)
     (hpre : ∀ x ∈ pre, x.noErr = true)
     (hreach : ∃ d ∈ s.rds, d.used = true ∧ pre.all (fun x => x.holds ph d) = true) :
     getDescriptors ph s (pre ++ z :: post) = .error e := by
   unfold getDescriptors
-  simp only [beq_iff_eq, hne, ↓reduceIte]
+  simp only [hne, Bool.false_eq_true, ↓reduceIte]
   have hms : ∀ d, multiSel ph (pre ++ z :: post) d =
       if pre.all (fun x => x.holds ph d) then .error e else .ok false := by
     intro d
